@@ -72,6 +72,14 @@ def string_variants(leaf):
     out.append(("0X-prefix", "0X" + leaf))
     out.append(("upper", leaf.upper()))
     out.append(("two-fullwidth", "\uff11\uff12" + leaf[2:]))
+    # characters of the value's own beginning or end repeated (what a strip() of a
+    # character SET, or a tolerant prefix match, would swallow)
+    out.append(("first-char-doubled", leaf[:1] + leaf))
+    out.append(("second-char-doubled", leaf[:2] + leaf[1:]))
+    out.append(("prefix-doubled", leaf[:2] + leaf))
+    out.append(("prefix-chars-mixed", leaf[:2] + leaf[:1] * 2 + leaf[1:2] * 2 + leaf[:1] + leaf[1:]))
+    out.append(("last-char-doubled", leaf + leaf[-1:]))
+    out.append(("suffix-doubled", leaf + leaf[-2:]))
     return out
 
 
@@ -286,6 +294,15 @@ def structural(rng, b, v1):
     var(a, "brothers-11", lambda r: r["brothers"].__setitem__(0, r["brothers"][0] * 11))
     var(a, "brothers-256", lambda r: r["brothers"].__setitem__(0, r["brothers"][0] * 256))
     var(a, "brother-not-block", lambda r: r["brothers"].__setitem__(0, ["aabbcc"]))
+    # ... next to well-formed ones (sorting, counting, hashing happen over the whole list)
+    var(a, "brother-not-block-after-a-good-one",
+        lambda r: r["brothers"].__setitem__(0, r["brothers"][0] + ["c0"]))
+    var(a, "brother-not-block-before-a-good-one",
+        lambda r: r["brothers"].__setitem__(0, ["aabbcc"] + r["brothers"][0]))
+    var(a, "brother-not-block-between-good-ones",
+        lambda r: r["brothers"].__setitem__(0, r["brothers"][0] + ["83aabbcc"] + r["brothers"][0]))
+    var(a, "brother-not-block-in-the-last-list",
+        lambda r: r["brothers"].__setitem__(len(r["brothers"]) - 1, r["brothers"][0] + ["c0"]))
     var(a, "brother-rlp-string", lambda r: r["brothers"].__setitem__(0, ["83aabbcc"]))
     var(a, "brother-17-fields", lambda r: r["brothers"].__setitem__(
         0, [gb.gen_block(rng, 17, tiny=True)["raw"].hex()]))
